@@ -555,7 +555,7 @@ def phase_correction(vector):
                     axis=-1, keepdims=True
                 )
             )
-        ), axis=0
+        ), axis=-2
     )
     return vector
 
